@@ -206,7 +206,7 @@ def g_split_state(rng):
 
 def gen_fn_case(rng):
     r = rng.random()
-    name = rng.choice(DIVIDERS) if r < 0.85 else rng.choice(['user:frac', 'user:with_state', 'user:skip'])
+    name = rng.choice(DIVIDERS) if r < 0.85 else rng.choice(['user:frac', 'user:with_state', 'user:count_state', 'user:skip'])
     c = {'kind': 'fn', 'name': name, 'choices': [rng.random() < 0.5 for _ in range(2)],
          'binoms': [rng.randrange(0, 10 ** 9) for _ in range(2)]}
     if name == 'split':
@@ -220,6 +220,9 @@ def gen_fn_case(rng):
     elif name == 'user:frac':
         c['state'] = rng.randrange(-50, 200)
         c['config'] = E({'num': rng.randrange(0, 5), 'den': rng.choice([1, 2, 3, 4, 0])})
+    elif name == 'user:count_state':
+        c['state'] = rng.randrange(-50, 200)
+        c['tstate'] = E({k: rng.randrange(-9, 9) for k in rng.sample(['other', 'p', 'qq', 'rrr', '*'], rng.randrange(0, 4))})
     elif name == 'user:with_state':
         c['state'] = rng.randrange(-50, 200)
         c['tstate'] = E({'other': rng.randrange(-9, 9)})
@@ -272,9 +275,17 @@ def g_var(rng, siblings):
         div = {'d': [['divider', {'l': ['__fn__', 'frac']}],
                      ['config', E({'num': rng.randrange(0, 4), 'den': rng.choice([2, 3, 4])})]]}
         default = rng.randrange(0, 60)
-    elif r < 0.92 and siblings:
+    elif r < 0.92 and siblings and rng.random() < 0.5:
         div = {'d': [['divider', {'l': ['__fn__', 'with_state']}],
                      ['topology', {'d': [['other', {'l': ['..', rng.choice(siblings)]}]]}]]}
+        default = rng.randrange(0, 60)
+    elif r < 0.92:
+        # a wildcard topology: one entry per variable of the store this variable lives in (by name), optionally
+        # next to a named entry
+        topo = [['*', {'l': ['..']}]]
+        if siblings and rng.random() < 0.4:
+            topo.insert(rng.randrange(2), [rng.choice(['own', siblings[0]]), {'l': ['..', rng.choice(siblings)]}])
+        div = {'d': [['divider', {'l': ['__fn__', 'count_state']}], ['topology', {'d': topo}]]}
         default = rng.randrange(0, 60)
     elif r < 0.94:
         div, default = {'l': ['__fn__', 'skip']}, rng.randrange(9)
